@@ -1,0 +1,8 @@
+//go:build !verif
+
+// Package verifhook provides hook points for the verification harness. Without the
+// `verif` build tag every hook is an empty function that the compiler removes.
+package verifhook
+
+// At marks a hook point. It does nothing in normal builds.
+func At(label string, payload ...any) {}
